@@ -112,7 +112,8 @@ fn verdict(orig: &Rule, text: &str) -> &'static str {
 }
 fn exec_rt(src: &str, wire: &str) -> String {
     let r1 = match inputlayer::parse_rule(src) { Ok(r) => r, Err(_) => return "unparsed".into() };
-    match wire_rule(&r1) { Some(w) if w == wire => {}, Some(_) => return "wire-mismatch".into(), None => return "unsupported".into() }
+    // `?` = exploration mode (not used by the generators): no AST check, any construct
+    if wire != "?" { match wire_rule(&r1) { Some(w) if w == wire => {}, Some(_) => return "wire-mismatch".into(), None => return "unsupported".into() } }
     // session / request-local path: handler.rs `format_rule_text` = `rule.to_string()`
     let s1 = r1.to_string();
     let s = verdict(&r1, &s1);
@@ -234,6 +235,18 @@ pub fn exec(req: &str) -> String {
     let op = it.next().unwrap_or("");
     match op {
         "c09.builtins" => exec_builtins(),
+        "c09.lit" => {
+            // what the re-parse of the printed literal yields: `s.parse::<i64>()` first (parser/mod.rs:555, :856)
+            let b = match it.next().and_then(|x| u64::from_str_radix(x, 16).ok()) { Some(b) => b, None => return "bad-request".into() };
+            let text = format!("{}", f64::from_bits(b));
+            // and the real term parser must agree with that classification for finite values
+            let cls = if text.parse::<i64>().is_ok() { "int" } else { "float" };
+            if f64::from_bits(b).is_finite() {
+                let via_parser = match inputlayer::parser::parse_term(&text) { Ok(Term::Constant(_)) => "int", Ok(Term::FloatConstant(_)) => "float", _ => "other" };
+                if via_parser != cls { return format!("parse_term-disagrees:{via_parser}"); }
+            }
+            cls.into()
+        }
         "c09.rt" | "c09.e2e" => {
             let src = match it.next().and_then(unxhex) { Some(s) => s, None => return "bad-request".into() };
             let wire = it.next().unwrap_or("");
@@ -344,8 +357,29 @@ const E2E: [&str; 23] = [
     "p(X) <- q(X), !s(X, true)", "p(X, N0e) <- ri(X, N0e), Z = N0e - 1, Z > 0",
 ];
 
+fn gen_lits(ctx: &mut Ctx, out: &mut Vec<String>) {
+    let mut push = |f: f64, ctx: &mut Ctx, k: &str| { out.push(format!("c09.lit {:016x}", f.to_bits())); ctx.count(k); };
+    // boundaries of "integral and within i64": +-2^63, their neighbours, 2^52..2^54, halves, zeros, subnormals, specials
+    for e in [0i32, 1, 2, 10, 31, 32, 51, 52, 53, 54, 61, 62, 63, 64, 100, 1023] {
+        let p = 2f64.powi(e);
+        for f in [p, -p, f64::from_bits(p.to_bits() + 1), f64::from_bits(p.to_bits() - 1), -f64::from_bits(p.to_bits() + 1), -f64::from_bits(p.to_bits() - 1), p + 0.5, p - 0.5, p * 1.5, -(p * 1.5)] { push(f, ctx, "lit_boundary"); }
+    }
+    for f in [0.0, -0.0, 0.5, -0.5, 1e-300, 5e-324, -5e-324, f64::MIN_POSITIVE, f64::MAX, f64::MIN, f64::INFINITY, f64::NEG_INFINITY, f64::NAN,
+              9007199254740993.0, 9223372036854775807.0, -9223372036854775808.0, -9223372036854777856.0, 1e15, 1e16, 1e22, 1e23, 123456.0, 123456.5] { push(f, ctx, "lit_boundary"); }
+    for _ in 0..ctx.budget(1500, 20000) {
+        let f = match ctx.below(4) {
+            0 => f64::from_bits(ctx.next()),
+            1 => (ctx.next() as i64) as f64,                                   // integers over the whole i64 range (rounded to f64)
+            2 => (ctx.range(-1_000_000, 1_000_000) as f64) / (*ctx.pick(&[1.0, 2.0, 4.0, 10.0, 1024.0])),
+            _ => { let e = ctx.range(1000, 1100) as u64; f64::from_bits((ctx.next() & 0x800f_ffff_ffff_ffff) | (e << 52)) }  // exponents around the integrality / range thresholds
+        };
+        push(f, ctx, "lit_random");
+    }
+}
+
 pub fn gen(ctx: &mut Ctx) -> Vec<String> {
     let mut out = vec!["c09.builtins".to_string()];
+    gen_lits(ctx, &mut out);
     // (1) chosen shapes: every literal kind in every position
     let mut lits: Vec<String> = vec![];
     lits.extend(FLOATS.iter().map(|s| s.to_string())); lits.extend(INTS.iter().map(|s| s.to_string())); lits.extend(STRS.iter().map(|s| s.to_string()));
